@@ -534,7 +534,7 @@ package serf
 //@   ensures recorded [C05,C04]: rebroadcast ==> slotHas(s, eventMsg.LTime, eventMsg.Name, eventMsg.Payload)
 //@   ensures cutoff_unchanged [C14]: s.eventMinTime == min0 && len(s.eventBuffer) == n
 //@   ensures clock_witnessed [C06]: s.eventClock.Time() > eventMsg.LTime && s.eventClock.Time() >= c0
-//@   ensures wf: wfEvents(s)
+//@   ensures wf [always]: wfEvents(s)
 //@   ensures earlier_events_kept [C16]: earlierEventsKept()
 //@   loop 1 vars rangeindex int, seen *userEvents
 //@   loop 1 invariant scanned [C05]: seen != nil && -1 <= rangeindex && rangeindex < len(seen.Events) &&
@@ -1033,7 +1033,9 @@ package serf
 // every registered query has well-formed reply streams, and two registered queries never share a stream
 //@ pure func wfRunningQueries(s *Serf) bool {
 //@   return s != nil && s.queryResponse != nil &&
-//@     forall(func(t LamportTime) bool { return mapHas(s.queryResponse, t) ==> wfReplies(mapAt(s.queryResponse, t)) && allocated(mapAt(s.queryResponse, t)) }) &&
+//@     forall(func(t LamportTime) bool { return mapHas(s.queryResponse, t) ==> wfReplies(mapAt(s.queryResponse, t)) && allocated(mapAt(s.queryResponse, t)) &&
+//@       allocatedRef(mapAt(s.queryResponse, t).respCh) && allocatedRef(mapAt(s.queryResponse, t).responses) &&
+//@       (mapAt(s.queryResponse, t).ackCh != nil ==> allocatedRef(mapAt(s.queryResponse, t).ackCh)) && (mapAt(s.queryResponse, t).acks != nil ==> allocatedRef(mapAt(s.queryResponse, t).acks)) }) &&
 //@     forall2(func(t, u LamportTime) bool { return mapHas(s.queryResponse, t) && mapHas(s.queryResponse, u) && t != u ==>
 //@       mapAt(s.queryResponse, t) != mapAt(s.queryResponse, u) && mapAt(s.queryResponse, t).respCh != mapAt(s.queryResponse, u).respCh &&
 //@       (mapAt(s.queryResponse, t).ackCh != nil ==> mapAt(s.queryResponse, t).ackCh != mapAt(s.queryResponse, u).ackCh) &&
@@ -1130,6 +1132,104 @@ package serf
 //@ end
 //@ func decodeKeyRequest(q *Query, req *keyRequest) (err error)
 //@   requires wf: q != nil && req != nil
+//@ end
+
+// state sync: the remote state is whatever the peer sent
+//@ pure func isBoolValue(v any) bool { _, ok := v.(bool); return ok }
+//@ func (d *delegate) MergeRemoteState(buf []byte, isJoin bool)
+//@   requires wf: d != nil && d.serf != nil && wfSerf(d.serf) && wfEvents(d.serf)
+//@   requires eventch_open: d.serf.config.EventCh == nil || !closed(d.serf.config.EventCh)
+//@   requires join_flag_is_bool: isBoolValue(d.serf.eventJoinIgnore.Load())
+//@   oldlet q0 := logN("queued")
+//@   ensures wf [C09]: wfSerf(d.serf) && wfEvents(d.serf)
+//@   # a state-sync merge never queues a re-broadcast (C04, second sentence)
+//@   ensures no_rebroadcast [C04,C09]: logN("queued") == q0
+//@   loop 1 vars ri=rangeindex int
+//@   loop 1 invariant idx [C09]: -1 <= ri
+//@   loop 1 invariant members [C09]: wfSerf(d.serf)
+//@   loop 1 invariant events [C09]: wfEvents(d.serf)
+//@   loop 1 invariant quiet [C04,C09]: logN("queued") == q0
+//@   loop 2 invariant members [C09]: wfSerf(d.serf)
+//@   loop 2 invariant events [C09]: wfEvents(d.serf)
+//@   loop 2 invariant quiet [C04,C09]: logN("queued") == q0
+//@   loop 3 vars ri=rangeindex int
+//@   loop 3 invariant idx [C09]: -1 <= ri
+//@   loop 3 invariant members [C09]: wfSerf(d.serf)
+//@   loop 3 invariant events [C09]: wfEvents(d.serf)
+//@   loop 3 invariant quiet [C04,C09]: logN("queued") == q0
+//@   loop 4 vars ri=rangeindex int
+//@   loop 4 invariant idx [C09]: -1 <= ri
+//@   loop 4 invariant members [C09]: wfSerf(d.serf)
+//@   loop 4 invariant events [C09]: wfEvents(d.serf)
+//@   loop 4 invariant quiet [C04,C09]: logN("queued") == q0
+//@ end
+
+// ---------------------------------------------------------------- issuing a query (C33 C06 C07)
+
+//@ func (m *memberlist.Memberlist) LocalNode() (n *memberlist.Node)
+//@   trusted
+//@   assigns
+//@   ensures nonnil: n != nil && allocated(n)
+//@ end
+//@ func (m *memberlist.Memberlist) NumMembers() (n int)
+//@   trusted
+//@   assigns
+//@   ensures nonneg: n >= 0
+//@ end
+
+//@ func (q *QueryParam) encodeFilters() (out [][]byte, err error)
+//@   requires receiver: q != nil
+//@   ensures shape: len(out) >= 0 && (nilSlice(out) ==> len(out) == 0) && (nilSlice(out) || arrayAllocated(out))
+//@   loop 1 vars filters [][]byte
+//@   loop 1 invariant shape: len(filters) >= 0 && len(filters) <= cap(filters) && (nilSlice(filters) ==> len(filters) == 0 && cap(filters) == 0) && (nilSlice(filters) || arrayAllocated(filters))
+//@ end
+
+//@ func newQueryResponse(n int, q *messageQuery) (r *QueryResponse)
+//@   requires args: n >= 0 && q != nil
+//@   let respCh := r.respCh
+//@   let ackCh := r.ackCh
+//@   let responses := r.responses
+//@   let acks := r.acks
+//@   ensures fresh_streams [C07]: r != nil && !old(allocated(r)) && allocated(r) && wfReplies(r) && !r.closed &&
+//@       r.id == q.ID && r.lTime == q.LTime && (ackCh != nil) == q.Ack() && (ackCh == nil) == (acks == nil) &&
+//@       sentN(respCh) == 0 && (ackCh != nil ==> sentN(ackCh) == 0 && allocatedRef(ackCh) && allocatedRef(acks)) && allocatedRef(respCh) && allocatedRef(responses)
+//@   # the streams and dedup sets are new objects: nothing that existed before is one of them
+//@   ensures new_objects [C07]: !old(allocatedRef(respCh)) && (ackCh != nil ==> !old(allocatedRef(ackCh)) && !old(allocatedRef(acks))) && !old(allocatedRef(responses))
+//@ end
+
+//@ func (s *Serf) registerQueryResponse(timeout time.Duration, resp *QueryResponse)
+//@   requires wf: wfRunningQueries(s) && resp != nil && allocated(resp) && wfReplies(resp) &&
+//@       allocatedRef(resp.respCh) && allocatedRef(resp.responses) && (resp.ackCh != nil ==> allocatedRef(resp.ackCh)) && (resp.acks != nil ==> allocatedRef(resp.acks))
+//@   requires sep_obj: forall(func(t LamportTime) bool { o := mapAt(s.queryResponse, t); return mapHas(s.queryResponse, t) && t != resp.lTime ==> o != resp })
+//@   requires sep_resp: forall(func(t LamportTime) bool { o := mapAt(s.queryResponse, t); return mapHas(s.queryResponse, t) && t != resp.lTime ==> o.respCh != resp.respCh })
+//@   requires sep_ack: forall(func(t LamportTime) bool { o := mapAt(s.queryResponse, t); return mapHas(s.queryResponse, t) && t != resp.lTime ==> (resp.ackCh != nil ==> o.ackCh != resp.ackCh) })
+//@   requires sep_sets: forall(func(t LamportTime) bool { o := mapAt(s.queryResponse, t); return mapHas(s.queryResponse, t) && t != resp.lTime ==> !same(o.responses, resp.responses) && !same(o.responses, resp.acks) })
+//@   requires sep_acksets: forall(func(t LamportTime) bool { o := mapAt(s.queryResponse, t); return mapHas(s.queryResponse, t) && t != resp.lTime ==> (o.acks != nil ==> !same(o.acks, resp.acks) && !same(o.acks, resp.responses)) })
+//@   requires sep_cross: forall(func(t LamportTime) bool { o := mapAt(s.queryResponse, t); return mapHas(s.queryResponse, t) && t != resp.lTime ==> distinctRefs(o.respCh, resp.ackCh) && distinctRefs(resp.respCh, o.ackCh) })
+//@   ensures registered [C07]: mapHas(s.queryResponse, resp.lTime) && mapAt(s.queryResponse, resp.lTime) == resp && wfRunningQueries(s)
+//@   ensures others_kept [C07]: forall(func(t LamportTime) bool { return t != resp.lTime ==>
+//@       mapHas(s.queryResponse, t) == old(mapHas(s.queryResponse, t)) && mapAt(s.queryResponse, t) == old(mapAt(s.queryResponse, t)) })
+//@ end
+
+//@ func (s *Serf) Query(name string, payload []byte, params *QueryParam) (r *QueryResponse, err error)
+//@   requires wf: wfQueries(s) && wfMembers(s) && hasMember(s, s.config.NodeName) && wfRunningQueries(s) && s.memberlist != nil && s.config.MemberlistConfig != nil
+//@   requires eventch_open: s.config.EventCh == nil || !closed(s.config.EventCh)
+//@   requires error_values: FeatureNotSupported != nil
+//@   oldlet q0 := logN("queued")
+//@   oldlet evN := sentN(s.config.EventCh)
+//@   oldlet c0 := callN()
+//@   oldlet mint0 := logN("mint.LamportClock.counter")
+//@   oldlet clk0 := s.queryClock.Time()
+//@   # C33: a query is sent (queued for gossip, processed locally, registered) only if its encoded form is within the limit
+//@   ensures sent_within_limit [C33]: err == nil ==> logN("queued") == q0+1 && logAt[*memberlist.TransmitLimitedQueue]("queued", q0) == s.queryBroadcasts &&
+//@       logAt[int]("queuedlen", q0) <= s.config.QuerySizeLimit
+//@   ensures rejected_no_effect [C33]: err != nil ==> r == nil && logN("queued") == q0 && sentN(s.config.EventCh) == evN && callN() == c0 &&
+//@       forall(func(t LamportTime) bool { return mapHas(s.queryResponse, t) == old(mapHas(s.queryResponse, t)) })
+//@   # C06: the query's Lamport time is the ticket of this call's own single atomic increment of the query clock
+//@   ensures own_ticket [C06]: err == nil ==> r != nil && logN("mint.LamportClock.counter") == mint0+1 &&
+//@       uint64(r.lTime)+1 == logAt[uint64]("mint.LamportClock.counter", mint0) && r.lTime >= clk0
+//@   # C07: the reply streams are registered under that time
+//@   ensures registered [C07]: err == nil ==> mapHas(s.queryResponse, r.lTime) && mapAt(s.queryResponse, r.lTime) == r && wfRunningQueries(s)
 //@ end
 
 // END-OF-CONTRACTS
